@@ -477,6 +477,14 @@ class Gen:
         corrupt = r.choice([None, None, None, None, "trunc", "garble", "dropline", "crlf", "binary"])
         data = self.file_text(fmt, protein, r.randint(0, 4) if self.chance(0.9) else r.randint(20, 60), corrupt)
         mode = r.choice(["p", "b", "b", "r1", "r2", "r7", "r64", "r8191", "r8192", "r100000", "r%d" % r.randint(1, 300)])
+        if self.chance(0.35):
+            # a real file on disk, already used before load() sees it: the loader goes on from there
+            n = len(data)
+            nl = data.count(b"\n")
+            # positions: start, a record boundary (start of a later record), anywhere, end
+            marks = [i for i in range(1, n) if data[i - 1:i] == b"\n" and (data[i:i + 1] == b">" or data[i - 3:i] == b"//\n" or data[i - 2:i] == b"\n\n")]
+            k = r.choice([0, n, r.randint(0, n)] + (marks * 3 if marks else []))
+            mode = r.choice(["fb%d" % k, "fb%d" % k, "fu%d" % k, "fk%d" % k, "fz%d" % k, "fn%d" % r.randint(0, nl + 1), "fe", "fx"])
         fmt_arg = S(fmt) if fmt != "jaspar" or self.chance(0.5) else None
         ld = self.slot()
         self.emit(r.choice(["ld", "ld", "lc"]), ld, mode, data.hex() or "-", fmt_arg, B(protein) if protein or self.chance(0.3) else None)
@@ -575,15 +583,61 @@ class Gen:
                     prot = r.choice([I(1), N_, S("no")])
                 self.emit("ld", self.slot(), mode, data.hex(), fmt, prot)
 
+    def t_lifetime(self):
+        """matrices and sequences lose their last name while scanners / scores / motif parts made from them live on"""
+        r = self.r
+        q, n = self.make_seq(False, r.choice([64, 129, 200, 320, 500]))
+        w = r.randint(2, 9)
+        s = self.make_motif(False, w, route=r.choice(["cm", "sm"]), clean=True)
+        scn = self.slot()
+        thr = r.choice([F(-5.0), F(0.0), F(-20.0), F(2.0)])
+        self.emit(r.choice(["sn", "sc"]), scn, ("V", s), ("V", q), thr, r.choice([None, I(1), I(4), I(16)]))
+        if self.chance(0.5):
+            self.emit("nx", scn, r.choice([1, 2, 3]))
+        victims = r.choice([[s], [s], [q], [s, q], [q, s]])
+        for v in victims:
+            self.emit("dl", v)
+        self.emit("nx", scn, r.choice([1, 2, "*"]))
+        self.emit("nx", scn, "*")
+        # scores returned by calculate outlive matrix and sequence
+        q2, _ = self.make_seq(False, r.choice([40, 100]))
+        s2 = self.make_motif(False, r.randint(1, 6), route="cm", clean=True)
+        sc = self.slot()
+        self.emit("ca", sc, s2, ("V", q2))
+        self.emit("dl", s2)
+        self.emit("dl", q2)
+        self.use_scores(sc)
+        # parts of a motif outlive the motif; the reverse complement outlives the matrix
+        m, c, p = self.slot(), self.slot(), self.slot()
+        seqs = [self.seq_text(False, 5) for _ in range(4)]
+        self.emit("cr", m, L(S(x) for x in seqs), None, None)
+        self.emit("gm", c, m, "c")
+        self.emit("gm", p, m, "s")
+        self.emit("dl", m)
+        w2, rc = self.slot(), self.slot()
+        self.emit("nz", w2, c, F(0.5))
+        self.emit("dl", c)
+        self.emit("rc", rc, p)
+        self.emit("dl", p)
+        self.emit("ms", rc)
+        scn2 = self.slot()
+        q3, _ = self.make_seq(False, 90)
+        self.emit("sn", scn2, ("V", rc), ("V", q3), F(-3.0), None)
+        self.emit("dl", rc)
+        self.emit("dl", q3)
+        self.emit("nx", scn2, "*")
+
     def history(self):
         r = self.r.random()
-        if r < 0.28:
+        if r < 0.26:
             self.t_chain()
-        elif r < 0.56:
+        elif r < 0.50:
             self.t_reuse()
-        elif r < 0.70:
+        elif r < 0.62:
             self.t_scan()
-        elif r < 0.85:
+        elif r < 0.70:
+            self.t_lifetime()
+        elif r < 0.86:
             self.t_load()
         else:
             self.t_invalid()
